@@ -146,6 +146,12 @@ def lowerAddr (cs : Bool) (σ : List Nat) (c : Ctx) (slot : Nat) (t : CSem.Ty) (
   let o := funcexpr2 cs σ (offOf t idx) c
   o.seq (funcinst o.ctx .add .l [.tmp (tmpName slot), o.val])
 
+/-- `funcinit`: the address of element `j` of the object in the slot `%.slot` — the slot itself for offset 0
+    ("QBE's memopt does not eliminate the store for ptr + 0"), else `add %.slot, offset`. -/
+def initAddr (c : Ctx) (slot : Nat) (t : CSem.Ty) (j : Nat) : Out :=
+  if j = 0 then ⟨[], .tmp (tmpName slot), c⟩
+  else funcinst c .add .l [.tmp (tmpName slot), .int (UInt64.ofNat (j * t.size))]
+
 /-- `funclabel(f, b)`: the current block ends with the jump set so far (or falls through). -/
 def labelItem (c : SCtx) (l : String) : Item := .lbl c.jump l []
 
@@ -388,6 +394,13 @@ def funcstmt (cs : Bool) : (brk cont : String) → Stmt → SCtx → SOut
     let ov : Out := if dt = t then ⟨[], ol.val, ol.ctx⟩ else convert cs ol.ctx dt t ol.val
     ⟨(funcopen c).1 ++ oa.items ++ ol.items ++ ov.items ++ [storeIns dt ov.val (c.slots.getD dst 0)], [],
       c0.upd ov.ctx, [], none⟩
+  | _, _, .ainit arr t _ _ j e, c =>
+    -- funcinit: the address of the element (`add` only for a non-zero offset), then the value, then `funcstore`
+    let c0 := (funcopen c).2
+    let oa := initAddr c0.ctx (c.slots.getD arr 0) t j
+    let oe := funcexpr3 cs c0.slots e oa.ctx
+    ⟨(funcopen c).1 ++ oa.items ++ oe.items ++ [.ins (.op none (.store (storeOf t)) [oe.val, oa.val])], [],
+      c0.upd oe.ctx, [], none⟩
   | _, _, .astore arr t _ _ idx e, c =>
     -- EXPRASSIGN: r = funcexpr(e); funclval(*(off + &a)) = funcexpr of the pointer; funcstore
     let oe := lowerE3 cs c e
